@@ -310,6 +310,10 @@ def bool_value(fn, op, depth=5):
             labs = {si.label(v) for v, _ in al}
             if si.is_bool and labs in ({True}, {False}):
                 cs.append((sb, True in labs))
+            elif not si.is_bool:
+                # a match on a character / integer / enum: the scrutinee is in the set of values of the allowed edges
+                vals = tuple(sorted(str(si.label(v)) for v, _ in al))
+                cs.append((sb, ("inset", vals)))
         condsets.append(cs)
     common = set(condsets[0])
     for cs in condsets[1:]:
@@ -322,6 +326,10 @@ def bool_value(fn, op, depth=5):
         term = v
         for sb, truth in cs:
             if (sb, truth) in common:
+                continue
+            if isinstance(truth, tuple):
+                g = ("inset", deep_strip(fn.expr(fn.term(sb)["discr"])), truth[1])
+                term = _b_and(g, term)
                 continue
             g = bool_value(fn, fn.term(sb)["discr"], depth - 1)
             term = _b_and(g if truth else _b_not(g), term)
@@ -578,3 +586,32 @@ def zero_test(si, what):
     if op == "Le" and a == ONE and b == what:      # 1 <= x
         return False
     return None
+
+
+def conjuncts(e):
+    """flatten a conjunction built by bool_value into its conjuncts; None if the expression contains a disjunction"""
+    e = strip(e, calls=set())
+    if e[0] == "bin" and e[1] == "BitAnd":
+        a, b = conjuncts(e[2]), conjuncts(e[3])
+        return None if a is None or b is None else a + b
+    if e[0] == "bin" and e[1] == "BitOr":
+        return None
+    return [e]
+
+
+def path_condition(fn, block, depth=5):
+    """conjunction (list of conjuncts) of the guard-aware conditions under which `block` runs; None if some condition is a
+    disjunction.  Boolean switches contribute bool_value(discr) or its negation, other switches an ('inset', scrutinee, values)."""
+    out = []
+    for sb, si, al in fn.conditions(block):
+        labs = {si.label(v) for v, _ in al}
+        if si.is_bool and labs in ({True}, {False}):
+            g = bool_value(fn, fn.term(sb)["discr"], depth)
+            g = g if True in labs else _b_not(g)
+            cj = conjuncts(g)
+            if cj is None:
+                return None
+            out.extend(cj)
+        elif not si.is_bool:
+            out.append(("inset", deep_strip(fn.expr(fn.term(sb)["discr"])), tuple(sorted(str(x) for x in labs))))
+    return out
